@@ -39,6 +39,7 @@ class DThreadState:
 class Sched:
     """one execution"""
     current = None   # the Sched in force (module-level singleton for the patched classes)
+    stuck_seen = []  # runs of this process that ended because a thread blocked in a primitive the scheduler does not manage
 
     def __init__(self, chooser, max_steps=20000, trace=True, yield_filter=None):
         self.chooser = chooser
@@ -55,7 +56,7 @@ class Sched:
         self.monitors = []
         self.outcome = None
         self.names_count = itertools.count()
-        self.step_timeout = 30.0
+        self.step_timeout = 30.0 if not Sched.stuck_seen else 3.0     # (once a run was stuck the next ones do not wait as long)
         self.stuck = None
 
     # ---- naming ---------------------------------------------------------
@@ -108,15 +109,33 @@ class Sched:
         if st is None:
             return None     # unmanaged thread (e.g. the pytest main thread during set-up): run straight through
         if self.aborting:
-            raise Abort()
+            self._abort(st, label)
+            return None
         if self.yield_filter is not None and enabled is None and wake is None and not self.yield_filter(label):
             return None
         st.pending = (label, enabled, wake)
         self.main_sem.release()
         st.sem.acquire()
         if self.aborting:
-            raise Abort()
+            self._abort(st, label)
+            return None
         return st
+
+    def _abort(self, st, label):
+        """unwind a managed thread at shutdown. Not from inside a bytecode-trace callback: an exception raised there while the
+        frame is being traced per opcode has crashed the interpreter (CPython 3.12.1, seen with a thread spinning in a loop of
+        the code under test); such a thread runs on to its next primitive and is unwound there (after 20000 more bytecodes without one it is left to run untraced: it is a daemon thread)."""
+        if label == "op":
+            st.free_ops = getattr(st, "free_ops", 0) + 1
+            if st.free_ops >= 20000:
+                # no primitive in sight: stop tracing this (daemon) thread and let it go
+                sys.settrace(None)
+                f = sys._getframe()
+                while f is not None:
+                    f.f_trace = None
+                    f = f.f_back
+            return
+        raise Abort()
 
     def record(self, st, label, result):
         if self.trace is not None and st is not None:
@@ -169,6 +188,7 @@ class Sched:
                 # does not manage (a lock created by the code under test with the real threading module, say)
                 self.outcome = "stuck"
                 self.stuck = st.name
+                Sched.stuck_seen.append("%s at %s" % (st.name, st.pending[0] if st.pending else "?"))
                 break
             for m in self.monitors:
                 m(self, st)
@@ -589,6 +609,20 @@ class Installed:
         if hasattr(ao, "Lock"):
             self.saved["Lock"] = ao.Lock
             ao.Lock = DLock
+        if hasattr(ao, "RLock"):
+            self.saved["RLock"] = ao.RLock
+            ao.RLock = DRLock
+        if hasattr(ao, "threading"):
+            # the module reached as `threading.X`: the same primitives under their qualified names
+            real = ao.threading
+            self.saved["threading"] = real
+
+            class _Threading:
+                Lock, RLock, Thread, Event = DLock, DRLock, DThread, DEvent
+
+                def __getattr__(self, k):
+                    return getattr(real, k)
+            ao.threading = _Threading()
         ao.Thread = DThread
         ao.Queue = DQueue
         ao.PriorityQueue = DPriorityQueue
